@@ -80,12 +80,19 @@ func main() {
 		if inflight == 0 {
 			timing = "idle-just-up"
 		}
+		if sc%6 == 1 || sc%6 == 3 {
+			timing = "in-flight" // scenarios 1 and 3 of every six: requests in flight, signal repeated
+		}
 		if timing == "idle-just-up" {
 			// a request racing the SIGINT may legitimately be refused (it was never accepted), so
 			// this timing sends none
 			inflight = 0
 		}
+		repeat := timing == "in-flight" && sc%2 == 1
 		name := fmt.Sprintf("%s k=%d", timing, inflight)
+		if repeat {
+			name += " sigint-repeated"
+		}
 		pa, ma := freePort(), freePort()
 		cmd := exec.Command(*bin, "start", "--mode", *mode, "--keys-file", *keys, "--prover-address", pa, "--metrics-address", ma)
 		var stderr bytes.Buffer
@@ -195,6 +202,14 @@ func main() {
 			wg.Wait()
 		}
 		cmd.Process.Signal(syscall.SIGINT)
+		if repeat {
+			// an impatient operator or a supervisor that repeats the signal: the stop has been
+			// requested already, the drain must go on
+			for _, pause := range []time.Duration{time.Millisecond, 10 * time.Millisecond, 40 * time.Millisecond} {
+				time.Sleep(pause)
+				cmd.Process.Signal(syscall.SIGINT)
+			}
+		}
 		done := make(chan error, 1)
 		go func() { done <- cmd.Wait() }()
 		var werr error
